@@ -16,7 +16,7 @@ from engine.pyvc.values import *
 from engine.pyvc import models
 from engine.pyvc.interp import SFile
 from engine.pyvc.loops import LoopSpec
-from engine.pyvc.harness import toolkit, raw, where, new_engine, run_paths, path_obligations, register_fn, note_engine, qualname, par_cases
+from engine.pyvc.harness import toolkit, raw, where, new_engine, run_paths, path_obligations, register_fn, note_engine, qualname, par_cases, exc_note, sect
 from contracts.py import trx as T
 from contracts.py.common import snapshot, attr, mk_sock, GhostSocket
 from contracts.py.tokens import IntTok, BadTok
@@ -32,13 +32,13 @@ def build_py(run, prop=ID):
     from props import C01, C03
     dm = toolkit("data_msg")
     E = new_engine()
-    C01.build_parse(run, prop, dm, E)
-    C03.build_recv(run, prop, E)
-    build_recv_rx(run, prop, E)
-    build_handle_rx(run, prop, E)
-    build_threshold_invariant(run, prop, E)
-    build_forward_chain(run, prop, E)
-    build_capture_reader(run, prop, E)
+    sect(run, C01.build_parse, run, prop, dm, E)
+    sect(run, C03.build_recv, run, prop, E)
+    sect(run, build_recv_rx, run, prop, E)
+    sect(run, build_handle_rx, run, prop, E)
+    sect(run, build_threshold_invariant, run, prop, E)
+    sect(run, build_forward_chain, run, prop, E)
+    sect(run, build_capture_reader, run, prop, E)
     note_engine(run, E)
     run.assume("TRXC datagram classes: undecodable octets (bytes.decode raises UnicodeDecodeError), text not starting with 'CMD', canonical "
                "commands whose arguments are decimal literals or arbitrary non-numeric junk; missing arguments = fewer tokens")
@@ -68,7 +68,7 @@ def build_recv_rx(run, prop, E):
     for p, ctx, out in run_paths(E, setup, lambda E, ctx: E.call(f, [ctx["self"]])):
         tag = {"side": "py", "what": "recv_rx_msg"}
         if out[0] == "raise":
-            run.add(Obligation(prop, qualname(f), "never_raises", p.pc, z3.BoolVal(False), kind="noexc", case=out[1].cls.__name__, where=where(f), tag=tag))
+            run.add(Obligation(prop, qualname(f), "never_raises", p.pc, z3.BoolVal(False), kind="noexc", note=exc_note(out[1]), case=out[1].cls.__name__, where=where(f), tag=tag))
             continue
         r = out[1]
         ok = r is None or (isinstance(r, SObj) and r.cls is dm.RxMsg)
@@ -144,7 +144,7 @@ def build_handle_rx(run, prop, E):
         for p, ctx, out in run_paths(E, setup, lambda E, ctx: E.call(f, [ctx["self"].attrs["ctrl_if"]])):
             tag = {"side": "py", "what": "handle_rx_bad", "kind": kind, "verb": verb, "argc": argc, "bad": list(badmask)}
             if out[0] == "raise":
-                obls.append(Obligation(prop, qualname(f), "never_raises", p.pc, z3.BoolVal(False), kind="noexc", case=cs + "," + out[1].cls.__name__, where=where(f), tag=tag))
+                obls.append(Obligation(prop, qualname(f), "never_raises", p.pc, z3.BoolVal(False), kind="noexc", note=exc_note(out[1]), case=cs + "," + out[1].cls.__name__, where=where(f), tag=tag))
                 continue
             sent = p.ghost.get("sent", [])
             t = ctx["self"]
@@ -163,7 +163,7 @@ def build_handle_rx(run, prop, E):
                 pieces = flatten(sent[0][1]) or []
                 st = pieces[3:4]          # "RSP ", verb, " ", status, ...
                 consumed = S.effect(verb, [z3.IntVal(0)] * argc, {"has_pm": True, "running": z3.BoolVal(False), "ready": z3.BoolVal(True), "hdr_ver": z3.IntVal(0),
-                                                                   **{k: z3.IntVal(0) for k in ("toa256_base", "toa256_thr", "rssi_base", "rssi_thr", "ci_base", "ci_thr", "drop_amount", "drop_period")}})
+                                                                   **{k: z3.IntVal(0) for k in ("toa256_base", "toa256_thr", "rssi_base", "rssi_thr", "ci_base", "ci_thr", "drop_amount", "drop_period", "rsp_delay_ms")}})
                 known_form = bool(consumed[2]) or consumed[1] is not None
                 if known_form and argc > 0:
                     if st and isinstance(st[0], FmtStr) and st[0].fmt == "int":
@@ -352,7 +352,7 @@ def build_capture_reader(run, prop, E):
             tag = {"side": "py", "what": "reader_any", "func": name}
             run.add(*path_obligations(run, prop, f, p, name, tag=tag))
             if out[0] == "raise":
-                run.add(Obligation(prop, qualname(f), "never_raises_on_any_content", p.pc, z3.BoolVal(False), kind="noexc", case=out[1].cls.__name__, where=where(f), tag=tag))
+                run.add(Obligation(prop, qualname(f), "never_raises_on_any_content", p.pc, z3.BoolVal(False), kind="noexc", note=exc_note(out[1]), case=out[1].cls.__name__, where=where(f), tag=tag))
             else:
                 nn += 1
                 run.add(Obligation(prop, qualname(f), "never_raises_on_any_content", p.pc, z3.BoolVal(True), kind="noexc", case="returns", where=where(f), tag=tag))
